@@ -64,6 +64,8 @@ impl<T> ChannelSlots<T> {
             Entry::Vacant(entry) => {
                 let (t, u) = make_entry(channel_id)?;
                 entry.insert(t);
+                // the id may have been freed earlier; it is no longer free
+                self.freed_channel_ids.swap_remove(&channel_id);
                 Ok(u)
             }
         }
@@ -91,6 +93,8 @@ impl<T> ChannelSlots<T> {
                 Entry::Vacant(entry) => {
                     let (t, u) = make_entry(channel_id)?;
                     entry.insert(t);
+                    // the id may have been freed earlier; it is no longer free
+                    self.freed_channel_ids.swap_remove(&channel_id);
                     return Ok(u);
                 }
             }
